@@ -43,6 +43,8 @@ func genConn(t *rapid.T, maxRecs int) ConnSpec {
 			r.Kind = 1
 		case 1:
 			r.Kind = 2
+		case 2:
+			r.Kind = 3
 		}
 		if rapid.IntRange(0, 9).Draw(t, "pause") == 0 {
 			r.Pause = rapid.SampledFrom([]int{1, 5, 15, 30}).Draw(t, "pauseMs")
